@@ -416,3 +416,80 @@ def c13_8(ctx, r):
     from .c09 import c09_10
 
     c09_10(ctx, r)
+
+
+MUTATORS = ("update", "pop", "popitem", "setdefault", "clear", "__setitem__", "__delitem__")
+
+
+def result_round_trip(ctx, r, rid):
+    """Rewriting the consolidated file (prune for resubmission) sends every *kept* row through serialize_result -> csv -> _get_results ->
+    deserialize_result.  Each stage must be the identity on the six Result fields:
+      serialize_result(x)  returns x._asdict() and nothing stores into / mutates that dict;
+      _write_results       writes serialize_result(x) for every x it was given, under fieldnames=Result._fields;
+      _get_results         converts a cell only by int()/float() of the *same* cell;
+      deserialize_result   hands data[<f>] to Result's parameter <f> for every field it passes."""
+    ser = ctx.fn("result.serialize_result", rid)
+    p = ser.params[0]
+    ret = only_return(ctx, ser)
+    val = ctx.src(ret) if ret is not None else None
+    r.check(val is not None and val.replace(" ", "") == f"{p}._asdict()", "serialize_result returns result._asdict()", key_of(ser, "serialized form"), ser.loc(ser.node),
+            f"serialize_result returns `{val}` instead of the unmodified `{p}._asdict()`: rows that are merely kept are rewritten with other values", "results of all other jobs are preserved (same name, return code, status and times)")
+    muts = []
+    for n in iter_own(ser.node):
+        if isinstance(n, (ast.Assign, ast.AugAssign, ast.Delete)):
+            tg = n.targets if isinstance(n, (ast.Assign, ast.Delete)) else [n.target]
+            muts += [ctx.src(t) for t in tg if isinstance(t, ast.Subscript)]
+        if isinstance(n, ast.Call) and isinstance(n.func, ast.Attribute) and n.func.attr in MUTATORS:
+            muts.append(ctx.src(n))
+    r.check(not muts, "nothing rewrites a field of the serialized row", key_of(ser, f"field rewritten: {sorted(set(muts))}"), ser.loc(ser.node),
+            f"serialize_result changes the dict after building it ({sorted(set(muts))}): every row that passes through a rewrite of the consolidated file (pruning for resubmission keeps the rows of the jobs that "
+            "are *not* rerun) comes back with a changed value", "results of all other jobs are preserved (same name, return code, status and times)")
+    # _write_results
+    wr = ctx.fn("ResultsAggregator._write_results", rid)
+    rows = collections_from(ctx, wr, lambda it: isinstance(it, ast.Name) and it.id == wr.params[1])
+    okw = any(c["elt"].replace(" ", "") == "serialize_result(_)" and not c["conds"] for c in rows)
+    r.check(okw, "_write_results writes serialize_result(x) for every row given", key_of(wr, "rows written"), wr.loc(wr.node),
+            f"_write_results builds its rows as {[(c['elt'], c['conds']) for c in rows]} - not serialize_result(x) of every result it was given", "results of all other jobs are preserved")
+    okf = any(isinstance(c, ast.Call) and ctx.src(c.func).endswith("DictWriter") and any(k.arg == "fieldnames" and ctx.src(k.value) == "Result._fields" for k in c.keywords) for c in iter_own(wr.node))
+    r.check(okf, "the header is Result._fields", key_of(wr, "fieldnames"), wr.loc(wr.node), "the rewritten consolidated file no longer has Result._fields as its header: the reader maps cells to other fields",
+            "the consolidated file always parses")
+    # _get_results: conversions are int/float of the same cell
+    gr = ctx.fn("ResultsAggregator._get_results", rid)
+    conv = 0
+    for n in iter_own(gr.node):
+        if isinstance(n, ast.Assign) and len(n.targets) == 1 and isinstance(n.targets[0], ast.Subscript) and isinstance(n.targets[0].slice, ast.Constant):
+            conv += 1
+            v = n.value
+            same = isinstance(v, ast.Call) and isinstance(v.func, ast.Name) and v.func.id in ("int", "float", "str") and len(v.args) == 1 and ctx.src(v.args[0]) == ctx.src(n.targets[0])
+            r.check(same, f"cell {n.targets[0].slice.value!r} is converted from itself", key_of(gr, f"cell {n.targets[0].slice.value} from {ctx.src(v)}"), gr.loc(n),
+                    f"`{ctx.src(n)}`: the cell is not the int()/float() of the same cell - a row read back differs from the row written", "results of all other jobs are preserved (same name, return code, status and times)")
+    if conv < 2:
+        raise AnalysisError(rid, f"{conv} cell conversions recognised in _get_results")
+    # deserialize_result
+    de = ctx.fn("result.deserialize_result", rid)
+    new = ctx.fn("Result.__new__", rid)
+    dp = de.params[0]
+    calls = 0
+    for s in ctx.cg.sites_in(de):
+        if new.qual not in s.targets():
+            continue
+        calls += 1
+        for f in new.params[1:]:
+            v = ctx.arg_for(s, new, f)
+            if v is None or v is new.defaults.get(f):
+                continue
+            txt = inlined(ctx, de, v, ctx.nodes_of(de, ctx.stmt_of(de, s.node))[0]).replace('"', "'")
+            ok = txt == f"{dp}['{f}']" or (f == "hpc_job_id" and f"{dp}.get('{f}')" in txt)
+            if not ok and isinstance(v, ast.Name):
+                # a local with several definitions (the "None" string of an old file is mapped to None): each one is data.get(<f>) or None
+                defs = [n.value for n in iter_own(de.node) if isinstance(n, ast.Assign) and any(isinstance(t, ast.Name) and t.id == v.id for t in n.targets)]
+                ok = bool(defs) and all(ctx.src(d).replace('"', "'") in (f"{dp}.get('{f}')", f"{dp}['{f}']", "None") for d in defs) and any("None" != ctx.src(d) for d in defs)
+            r.check(ok, f"Result.{f} is read from data['{f}']", key_of(de, f"{f} from {txt}"), de.loc(s.node),
+                    f"deserialize_result builds Result.{f} from `{txt}`: a row read back carries another field's value", "results of all other jobs are preserved (same name, return code, status and times)")
+    if calls < 1:
+        raise AnalysisError(rid, "deserialize_result does not construct a Result")
+
+
+@rule(P, "C13.9", "T9", "a kept result row survives the rewrite of the consolidated file unchanged (serialize -> csv -> deserialize is the identity on the fields)", min_obligations=8)
+def c13_9(ctx, r):
+    result_round_trip(ctx, r, "C13.9")
